@@ -75,6 +75,19 @@ def j_from_config(ctx):
             obs.append(('config:ranks', f'nobody holds rank {r} before joining', Not(ch['ranksets'][r].get(n, False))))
     return obs
 
+@judge('join_repeated')
+def j_join_repeated(ctx):
+    """a JOIN naming the same not yet existing channel more than once: whatever is announced, the joiner ends up as its founder and operator"""
+    r = ref_parse(ctx.line.encode())
+    if r[1].upper() != b'JOIN' or ctx.outcome != 'ok': return []
+    pre, post, a = ctx.pre, ctx.post, ctx.actor
+    obs = []
+    for c in sorted(set(r[2][0].decode().split(','))):
+        if c in pre.chans: continue
+        obs.append(('birth:member', f'JOIN {ctx.line.split()[1]}: the joiner is a member of the new channel {c}', And(post.chan_live(c), post.member(a, c))))
+        obs.append(('birth:founder', f'JOIN {ctx.line.split()[1]}: the joiner of the new channel {c} is its founder and operator', And(post.rank(a, c, 'founder'), post.rank(a, c, 'operator'))))
+    return obs
+
 def make_cases(tier, profile):
     base = dict(sym_caps=False, sym_max_joins=True, sym_topic=True, sym_modes=False, sym_away=False, sym_ranks=False, plain_chans=['&y'], nicks=['alice', 'bob', 'carol'])
     only_alice = {'mem_alice_#x': True, 'mem_bob_#x': False, 'mem_carol_#x': False, 'exists_#x': True}
@@ -88,6 +101,8 @@ def make_cases(tier, profile):
              dict(name='JOIN a preconfigured channel with configured ranks', line='JOIN #x', judges=['no_panic', 'inv', 'join_defmodes'],
                   spec=dict(base, sym_default_modes=True, sym_lists=False, sym_topic=False, sym_invites=False, sym_max_joins=False, sym_flags=False, sym_key=False, sym_limit=False),
                   partial0={'preconf_#x': True, 'exists_#x': True, 'mem_alice_#x': False}, split=['mem_bob_#x', 'mem_carol_#x', 'def_founder_alice_#x', 'def_operator_alice_#x']),
+             dict(name='JOIN #new,#new (the same new channel twice)', line='JOIN #new,#new', judges=['no_panic', 'inv', 'join_repeated'], spec=dict(base, sym_max_joins=False)),
+             dict(name='JOIN #new,&y,#new', line='JOIN #new,&y,#new', judges=['no_panic', 'inv', 'join_repeated'], spec=dict(base, sym_max_joins=False)),
              dict(name='channels declared in the configuration', line='', call='new_from_config', judges=['no_panic', 'from_config'], spec=base)]
     return cases
 
